@@ -375,3 +375,129 @@ Proof.
                       destruct r; auto; destruct K2 as (m & Hm); rewrite Hm, has_limit_app, H2; reflexivity)).
   specialize (P I fuel x l (conj (ti_loop _ _ _ (si_term _ _ _ _ S)) Hev)). rewrite E in P. exact P.
 Qed.
+
+(* ---- exactly one: a sprint contains at most one step-limit failure event ------------------------------------------ *)
+
+Definition count_limit (evs : list (option nat * event)) : nat :=
+  length (filter (fun oe => is_limit (ev_kind (snd oe))) evs).
+
+Lemma count_limit_app : forall e1 e2, count_limit (e1 ++ e2) = (count_limit e1 + count_limit e2)%nat.
+Proof. intros. unfold count_limit. rewrite filter_app, app_length. reflexivity. Qed.
+
+Lemma count_limit_none : forall evs, has_limit_event evs = false -> count_limit evs = 0%nat.
+Proof.
+  induction evs as [|oe evs IH]; intros H; [reflexivity|].
+  unfold has_limit_event in H. simpl in H. apply orb_false_iff in H. destruct H as [H1 H2].
+  unfold count_limit. simpl. rewrite H1. apply IH. exact H2.
+Qed.
+
+Lemma count_limit_pos : forall evs, has_limit_event evs = true -> (1 <= count_limit evs)%nat.
+Proof.
+  induction evs as [|oe evs IH]; intros H; [discriminate|].
+  unfold has_limit_event in H. simpl in H. unfold count_limit. simpl.
+  destruct (is_limit (ev_kind (snd oe))); simpl; [lia|]. apply IH. exact H.
+Qed.
+
+Lemma nl_count : forall x x', nl x x' -> count_limit (sp_events (sprint_ x')) = count_limit (sp_events (sprint_ x)).
+Proof. intros x x' (new & Hs & Hf). rewrite Hs, count_limit_app, (count_limit_none _ Hf). lia. Qed.
+
+(* once the limit is hit no iteration logs another step-limit failure: there is no destination any more *)
+Lemma hit_iter_nl : forall a t0 x l,
+  step_inv a t0 x l -> hit a l ->
+  match cuw_iter a x l with ICont x' _ => nl x x' | IStop (ROk x') => nl x x' | _ => True end.
+Proof.
+  intros a t0 x l S Hh. pose proof (si_term _ _ _ _ S) as T. rewrite cuw_iter_phases.
+  destruct (pick_dest a x l) as [[x1 l1] dest] eqn:Epd.
+  destruct (pick_dest_inv _ _ _ _ _ _ (ti_loop _ _ _ T) Epd) as (c & M & _).
+  destruct (pick_dest_locals _ _ _ _ _ _ T Epd) as (_ & _ & Hdest & _).
+  pose proof (pick_dest_nl _ _ _ _ _ _ Epd) as N1. rewrite (mi_cur _ _ _ _ M).
+  destruct dest as [d|]; [exfalso; apply Hdest; [discriminate|exact Hh]|].
+  pose proof (finish_run_nl a x1 l1 c _ eq_refl) as N.
+  destruct (finish_run a x1 l1 c) as [[y| | |]|y l']; simpl in *; auto; eapply nl_trans; eauto.
+Qed.
+
+Lemma cuw_limit_once : forall a t0 fuel x l x',
+  step_inv a t0 x l -> ~ hit a l -> continue_until_wait fuel a x l = ROk x' ->
+  (count_limit (sp_events (sprint_ x')) <= count_limit (sp_events (sprint_ x)) + 1)%nat.
+Proof.
+  intros a t0 fuel x l x' S Hn Hr.
+  set (c0 := count_limit (sp_events (sprint_ x))).
+  pose proof (cuw_induct a (fun x1 l1 => limit_inv a t0 x x1 l1 /\ (hit a l1 -> (count_limit (sp_events (sprint_ x1)) <= c0 + 1)%nat))
+                (fun r => match r with ROk x2 => (count_limit (sp_events (sprint_ x2)) <= c0 + 1)%nat | _ => True end)) as P.
+  assert (Hstep : forall x1 l1 x2 l2,
+            limit_inv a t0 x x1 l1 /\ (hit a l1 -> (count_limit (sp_events (sprint_ x1)) <= c0 + 1)%nat) ->
+            cuw_iter a x1 l1 = ICont x2 l2 ->
+            limit_inv a t0 x x2 l2 /\ (hit a l2 -> (count_limit (sp_events (sprint_ x2)) <= c0 + 1)%nat)).
+  { intros x1 l1 x2 l2 [H1 H2] E.
+    pose proof (cuw_iter_limit_inv a t0 x x1 l1 H1) as K. rewrite E in K. split; [exact K|].
+    intros Hh2. destruct H1 as [S1 Hnl1].
+    destruct (hitb a l1) eqn:Eh.
+    - apply hitb_hit in Eh. pose proof (hit_iter_nl a t0 x1 l1 S1 Eh) as N. rewrite E in N.
+      rewrite (nl_count _ _ N). apply H2. exact Eh.
+    - assert (Hn1 : ~ hit a l1) by (intros C; apply hitb_hit in C; congruence).
+      destruct (cuw_iter_crossing a x1 l1 x2 l2 (si_term _ _ _ _ S1) E Hn1 Hh2) as (c & y & _ & Ny & _ & Hev & _).
+      rewrite Hev, count_limit_app, (nl_count _ _ Ny), (nl_count _ _ (Hnl1 Hn1)). unfold count_limit at 2. simpl. fold c0. lia. }
+  specialize (P Hstep).
+  assert (Hstop : forall x1 l1 r,
+            limit_inv a t0 x x1 l1 /\ (hit a l1 -> (count_limit (sp_events (sprint_ x1)) <= c0 + 1)%nat) ->
+            cuw_iter a x1 l1 = IStop r ->
+            match r with ROk x2 => (count_limit (sp_events (sprint_ x2)) <= c0 + 1)%nat | _ => True end).
+  { intros x1 l1 r [H1 H2] E. destruct r as [x2| | |]; auto.
+    pose proof (cuw_iter_limit_inv a t0 x x1 l1 H1) as K. rewrite E in K. destruct H1 as [S1 Hnl1].
+    destruct (hitb a l1) eqn:Eh.
+    - apply hitb_hit in Eh. pose proof (hit_iter_nl a t0 x1 l1 S1 Eh) as N. rewrite E in N.
+      rewrite (nl_count _ _ N). apply H2. exact Eh.
+    - assert (Hn1 : ~ hit a l1) by (intros C; apply hitb_hit in C; congruence).
+      rewrite (nl_count _ _ (K Hn1)). fold c0. lia. }
+  specialize (P Hstop).
+  specialize (P I fuel x l). 
+  assert (H0 : limit_inv a t0 x x l /\ (hit a l -> (count_limit (sp_events (sprint_ x)) <= c0 + 1)%nat)).
+  { split; [constructor; [exact S|intros _; apply nl_refl]|]. intros _. fold c0. lia. }
+  specialize (P H0). rewrite Hr in P. exact P.
+Qed.
+
+Theorem start_limit_once : forall a t f x',
+  start a t f = ROk x' -> (count_limit (sp_events (sprint_ x')) <= 1)%nat.
+Proof.
+  intros a t f x'. unfold start. destruct (get_flow a f) as [fl0|]; [|discriminate]. intros H.
+  exact (cuw_limit_once a _ _ _ _ _ (step_inv_init a _ _ (loop_inv_start t f (f_type fl0)) eq_refl)
+           ltac:(intros [C _]; simpl in C; lia) H).
+Qed.
+
+Theorem resume_limit_once : forall a s r tmo x',
+  post_inv s -> resume_session a s r tmo = Resumed (ROk x') -> (count_limit (sp_events (sprint_ x')) <= 1)%nat.
+Proof.
+  intros a s r tmo x' Hpost H.
+  destruct (resume_decompose _ _ _ _ _ Hpost H) as [(y & wi & c & E & _ & _ & _ & _ & Hy)|(x2 & l & E & HL & Hs & _ & _ & wi & pos & e & op & _ & _ & _ & Hfre & _)].
+  - inversion E; subst.
+    assert (N : nl {| session_ := s; sprint_ := empty_sprint |} y).
+    { destruct Hy as [->|(pos & n & _ & ->)]; [apply nl_refl|].
+      eapply nl_trans; [|apply apply_resume_nl]. apply (nl_with_session {| session_ := s; sprint_ := empty_sprint |}). }
+    assert (F : (count_limit (sp_events (sprint_ (fail_session y wi c))) <= count_limit (sp_events (sprint_ y)) + 1)%nat).
+    { unfold fail_session, fail_run, log_event. simpl. rewrite count_limit_app. unfold count_limit at 2. simpl.
+      destruct c; simpl; lia. }
+    rewrite (nl_count _ _ N) in F. eapply Nat.le_trans; [exact F|]. unfold count_limit. simpl. lia.
+  - pose proof (find_resume_exit_nl a (apply_resume (resume_x0 s) wi (Some (wi, pos)) r) wi (is_timeout r) tmo) as N2. rewrite Hfre in N2.
+    pose proof (nl_trans _ _ _ (apply_resume_nl (resume_x0 s) wi (Some (wi, pos)) r) N2) as N02.
+    symmetry in E.
+    pose proof (cuw_limit_once a _ _ _ _ _ (step_inv_init a _ _ HL Hs) ltac:(intros [C _]; rewrite Hs in C; lia) E) as K.
+    rewrite (nl_count _ _ N02) in K. exact K.
+Qed.
+
+(* hitting the limit, without reference to any wording: if the sprint of a call that returned contains a step-limit
+   failure then the session is failed and the sprint contains exactly one such event *)
+Theorem start_limit_exactly_once : forall a t f x',
+  start a t f = ROk x' -> has_limit_event (sp_events (sprint_ x')) = true ->
+  s_status (session_ x') = SFailed /\ count_limit (sp_events (sprint_ x')) = 1%nat.
+Proof.
+  intros a t f x' H Hh. split; [eapply start_limit_event_failed; eauto|].
+  pose proof (start_limit_once _ _ _ _ H). pose proof (count_limit_pos _ Hh). lia.
+Qed.
+
+Theorem resume_limit_exactly_once : forall a s r tmo x',
+  post_inv s -> resume_session a s r tmo = Resumed (ROk x') -> has_limit_event (sp_events (sprint_ x')) = true ->
+  s_status (session_ x') = SFailed /\ count_limit (sp_events (sprint_ x')) = 1%nat.
+Proof.
+  intros a s r tmo x' Hp H Hh. split; [eapply resume_limit_event_failed; eauto|].
+  pose proof (resume_limit_once _ _ _ _ _ Hp H). pose proof (count_limit_pos _ Hh). lia.
+Qed.
